@@ -125,9 +125,11 @@ def tab_b256(ctx):
     need(db in f.thir, r, db)
     dbody = f.thir[db]
     linit = None
-    for st in dbody["body"]["stmts"]:
+    for k, st in enumerate(dbody["body"]["stmts"]):
         if st["k"] == "Let" and st["pat"].get("name", "").startswith("length#"):
-            linit = st["init"]
+            # the statements up to and including `let length = ..` as one block whose value is `length`
+            linit = {"k": "Block", "ty": "usize", "span": dbody["body"]["span"], "stmts": dbody["body"]["stmts"][:k + 1],
+                     "expr": {"k": "Var", "ty": "usize", "span": st["span"], "name": st["pat"]["name"]}}
     need(linit is not None, r, db, "(let length = ..)")
     bad_l = None
     REST = 77
